@@ -353,8 +353,9 @@ public:
     template<class T2, class R = ResultType<T, T2>>
     base_array<R>& operator+=(const T2& rhs) noexcept {
         static_assert(std::is_same_v<T, R>, "the operation changes the type");
+        const T2 val = rhs;   //rhs may refer to an element of this array (a += a[0])
         for (size_t i = 0; i < _vec.size(); ++i) {
-            _vec[i] += rhs;
+            _vec[i] += val;
         }
         return *this;
     }
@@ -362,8 +363,9 @@ public:
     template<class T2, class R = ResultType<T, T2>>
     base_array<R>& operator-=(const T2& rhs) noexcept {
         static_assert(std::is_same_v<T, R>, "the operation changes the type");
+        const T2 val = rhs;   //rhs may refer to an element of this array (a -= a[0])
         for (size_t i = 0; i < _vec.size(); ++i) {
-            _vec[i] -= rhs;
+            _vec[i] -= val;
         }
         return *this;
     }
@@ -371,8 +373,9 @@ public:
     template<class T2, class R = ResultType<T, T2>>
     base_array<R>& operator*=(const T2& rhs) noexcept {
         static_assert(std::is_same_v<T, R>, "the operation changes the type");
+        const T2 val = rhs;   //rhs may refer to an element of this array (a *= a[0])
         for (size_t i = 0; i < _vec.size(); ++i) {
-            _vec[i] *= rhs;
+            _vec[i] *= val;
         }
         return *this;
     }
@@ -380,8 +383,9 @@ public:
     template<class T2, class R = ResultType<T, T2>>
     base_array<R>& operator/=(const T2& rhs) noexcept {
         static_assert(std::is_same_v<T, R>, "the operation changes the type");
+        const T2 val = rhs;   //rhs may refer to an element of this array (a /= a[0])
         for (size_t i = 0; i < _vec.size(); ++i) {
-            _vec[i] /= rhs;
+            _vec[i] /= val;
         }
         return *this;
     }
